@@ -294,6 +294,8 @@ def pyeval(e, heap: Heap, env: Optional[Dict[str, Any]] = None):
         dom = _py_compound(e.domain, heap, env)
         elems = _py_elements(dom, heap)
         name = e.variable
+        for sub in invariant_subterms(e.condition, [name]):
+            pyeval(sub, heap, env)  # must be defined even if the domain is empty
         results = []
         for v in elems:
             env2 = dict(env)
@@ -416,12 +418,20 @@ def _distinct(vals) -> bool:
     return True
 
 
+def _dedupe(vals):
+    out = []
+    for v in vals:
+        if not any(_same_kind(v, w) and _py_eq(v, w) for w in out):
+            out.append(v)
+    return out
+
+
 def _agg_elems(arg, heap, env) -> List[Any]:
     c = _py_compound(arg, heap, env)
     if c.kind == 'set':
-        # set- and list-readings agree only when the listed elements are pairwise distinct
-        if not _distinct(c.elems):
-            raise Undef('aggregate over a set with coinciding elements')
+        # two admissible readings of an enumerated set with coinciding elements: as listed / as a mathematical set
+        if getattr(heap, 'reading', 'list') == 'set':
+            return _dedupe(c.elems)
         return c.elems
     if c.kind == 'array':
         return c.elems
@@ -440,8 +450,8 @@ def _py_call(e, heap, env):
                 if c.listable:
                     return len(_int_range(c))
                 return len(heap.rlist(c.lo, c.hi, c.exmin, c.exmax))
-            if c.kind == 'set' and not _distinct(c.elems):
-                raise Undef('len of a set with coinciding elements')
+            if c.kind == 'set' and getattr(heap, 'reading', 'list') == 'set':
+                return len(_dedupe(c.elems))
             return len(c.elems)
         if name in ('sum', 'prod'):
             vals = [_num(v) for v in _agg_elems(args[0], heap, env)]
@@ -593,21 +603,25 @@ def to_val(v):
 
 
 class ZCompound:
-    def __init__(self, kind, slots, length, df, lo=None, hi=None, exmin=None, exmax=None, agg_ok=None):
+    def __init__(self, kind, slots, length, df, lo=None, hi=None, exmin=None, exmax=None, agg_ok=None, agg_slots=None, agg_len=None):
         self.kind = kind
         self.slots = slots  # list of (guard, val: Val, def)
         self.length = length  # Int term
         self.df = df
         self.lo, self.hi, self.exmin, self.exmax = lo, hi, exmin, exmax
         self.agg_ok = agg_ok if agg_ok is not None else z3.BoolVal(True)  # aggregates (len/sum/..) defined
+        self.agg_slots = agg_slots if agg_slots is not None else slots  # what len/sum/prod range over
+        self.agg_len = agg_len if agg_len is not None else length
 
 
 class Z3Tr:
     """Translate hpl.ast expressions into (value, defined) z3 terms. Quantifier-free: quantifiers over arrays
     are expanded over K slots under the assumption alen <= K (a stated bound on the valuations)."""
 
-    def __init__(self, K: int = 2, this=None, aliases: Optional[Dict[str, Any]] = None):
+    def __init__(self, K: int = 2, this=None, aliases: Optional[Dict[str, Any]] = None, reading: str = 'list'):
         self.K = K
+        self.reading = reading  # enumerated sets with coinciding elements: 'list' (as written) or 'set' (deduplicated)
+        self.dual = False  # True once an aggregate-relevant multi-element set literal has been translated
         self.this = this if this is not None else z3.IntVal(0)
         self.aliases = dict(aliases or {})
         self.assumptions: List[Any] = []
@@ -639,6 +653,45 @@ class Z3Tr:
             return to_val(v), z3.BoolVal(True)
         except (Undef, OverflowError):
             return None, z3.BoolVal(False)
+
+    # -- schema-consistency of the valuation -------------------------------
+    def typing(self, e) -> List[Any]:
+        """Constraints saying the valuation gives every reference of e that does not depend on a quantified variable
+        a value of a kind inside the type set stored on that node (one concrete type per field, as under a schema).
+        Without them a type error hidden in the body of a quantifier over an empty domain would count as 'defined'."""
+        out: List[Any] = []
+
+        def tagok(v, mask):
+            names = {'BOOL': Val.is_B, 'NUMBER': Val.is_N, 'STRING': Val.is_S, 'ARRAY': Val.is_A, 'MESSAGE': Val.is_M}
+            alts = []
+            for m in type(mask):
+                if m.name in names and (mask & m):
+                    alts.append(names[m.name](v))
+            return z3.Or(*alts) if alts else z3.BoolVal(False)
+
+        def walk(n, bound):
+            k = kind(n)
+            if k in ('HplFieldAccess', 'HplArrayAccess', 'HplVarReference'):
+                if not _mentions(n, bound) and not (k == 'HplVarReference' and n.token[1:] in bound):
+                    v, d = self.tr(n, {})
+                    out.append(z3.Implies(d, tagok(v, n.data_type)))
+            if k == 'HplQuantifier' and not _mentions(n.domain, bound):
+                mask = None
+                for m in walk_nodes(n.condition):
+                    if kind(m) == 'HplVarReference' and m.token[1:] == n.variable:
+                        mask = m.data_type if mask is None else (mask & m.data_type)
+                if mask is not None:
+                    try:
+                        comp = self.compound(n.domain, {})
+                        for g, v, dv in (comp.slots or []):
+                            out.append(z3.Implies(z3.And(comp.df, g, dv), tagok(v, mask)))
+                    except Exception:
+                        pass
+            for c in _kids(n):
+                walk(c, bound | ({n.variable} if k == 'HplQuantifier' else set()))
+
+        walk(e, set())
+        return out
 
     # -- items -------------------------------------------------------------
     def tr(self, e, env: Optional[Dict[str, Any]] = None) -> Tuple[Any, Any]:
@@ -681,6 +734,8 @@ class Z3Tr:
                 return Val.B(z3.BoolVal(False)), z3.BoolVal(False)
             vals = []
             defs = [c.df]
+            for sub in invariant_subterms(e.condition, [e.variable]):
+                defs.append(self.tr(sub, env)[1])  # must be defined even if the domain is empty
             for g, v, dv in c.slots:
                 env2 = dict(env)
                 env2[e.variable] = (v, z3.BoolVal(True))
@@ -711,12 +766,18 @@ class Z3Tr:
                 t, d = self.tr(v, env)
                 slots.append((z3.BoolVal(True), t, d))
                 defs.append(d)
-            distinct = []
-            for i in range(len(slots)):
-                for j in range(i + 1, len(slots)):
-                    distinct.append(slots[i][1] != slots[j][1])
-            return ZCompound('set', slots, z3.IntVal(len(slots)), z3.And(*defs) if defs else z3.BoolVal(True),
-                             agg_ok=z3.And(*distinct) if distinct else z3.BoolVal(True))
+            if self.reading == 'set' and len(slots) > 1:
+                self.dual = True
+                agg_slots = []
+                for i, (g, t, d) in enumerate(slots):
+                    first = z3.And(*[slots[j][1] != t for j in range(i)]) if i else z3.BoolVal(True)
+                    agg_slots.append((first, t, d))
+                agg_len = z3.Sum(*[z3.If(g, 1, 0) for g, _, _ in agg_slots])
+                return ZCompound('set', slots, z3.IntVal(len(slots)), z3.And(*defs) if defs else z3.BoolVal(True),
+                                 agg_slots=agg_slots, agg_len=agg_len)
+            if len(slots) > 1:
+                self.dual = True
+            return ZCompound('set', slots, z3.IntVal(len(slots)), z3.And(*defs) if defs else z3.BoolVal(True))
         if k == 'HplRange':
             lo, dlo = self.tr(e.min_value, env)
             hi, dhi = self.tr(e.max_value, env)
@@ -829,7 +890,7 @@ class Z3Tr:
         defs = [c.df, c.agg_ok]
         if c.slots is None:
             return [], z3.BoolVal(False)
-        for g, v, dv in c.slots:
+        for g, v, dv in c.agg_slots:
             out.append((g, Val.n(v)))
             defs.append(z3.Implies(g, z3.And(dv, Val.is_N(v))))
         return out, z3.And(*defs)
@@ -842,9 +903,8 @@ class Z3Tr:
             c = self.compound(args[0], env)
             if c.length is None:
                 return Val.N(z3.RealVal(0)), z3.BoolVal(False)
-            ok = c.agg_ok if c.kind == 'set' else T
-            defs = [c.df, ok] + [z3.Implies(g, dv) for g, v, dv in (c.slots or [])]
-            return Val.N(z3.ToReal(c.length)), z3.And(*defs)
+            defs = [c.df] + [z3.Implies(g, dv) for g, v, dv in (c.slots or [])]
+            return Val.N(z3.ToReal(c.agg_len)), z3.And(*defs)
         if name in ('sum', 'prod'):
             c = self.compound(args[0], env)
             nums, d = self._nums(c)
@@ -945,6 +1005,7 @@ class ModelHeap(Heap):
     def __init__(self, model, tr: Z3Tr):
         self.model = model
         self.trn = tr
+        self.reading = tr.reading
 
     def this(self):
         return Msg(self.model.eval(self.trn.this, model_completion=True).as_long())
@@ -1028,6 +1089,23 @@ def _mentions(e, names) -> bool:
     if kind(e) == 'HplVarReference' and e.token[1:] in names:
         return True
     return any(_mentions(c, names) for c in _kids(e))
+
+
+def invariant_subterms(body, names):
+    """maximal item-valued subexpressions of `body` that mention none of the variables `names`
+    (a strict evaluator may hoist them out of the quantifier, so they must be defined even over an empty domain)"""
+    out = []
+
+    def walk(n, bound):
+        k = kind(n)
+        if k not in ('HplSet', 'HplRange') and not _mentions(n, bound):
+            out.append(n)
+            return
+        for c in _kids(n):
+            walk(c, bound | ({n.variable} if k == 'HplQuantifier' else set()))
+
+    walk(body, set(names))
+    return out
 
 
 def walk_nodes(e):
